@@ -52,7 +52,7 @@ func (a *api) build(canon string) (any, error) {
 		return a.identity(), nil
 	}
 	f := strings.Split(canon, ",")
-	if a.kind == 'm' && f[1] == "ERR" {
+	if a.kind == 'm' && (f[1] == "ERR" || f[0] == "0") {
 		// the order-2 point (u,v) = (0,0): double of the order-4 point u = 1
 		one := make([]byte, a.csize)
 		one[0] = 1
@@ -324,10 +324,7 @@ func decodeStrings(a *api, f string, pts []any, seed int64, nRandom, nFlip int) 
 		out = append(out, b)
 	}
 	// every value of the flag-carrying byte(s) on a valid encoding and on the identity's
-	bases := [][]byte{base, encs[0], encs[len(encs)/2]}
-	if costOf(a) >= 8 {
-		bases = bases[:2]
-	}
+	bases := [][]byte{base, encs[0]}
 	for bi, b0 := range bases {
 		for v := 0; v < 256; v++ {
 			if costOf(a) >= 8 && !(v&0x1f == 0 || v&0x1f == 0x1f || v&0x1f == int(b0[0])&0x1f || v&0xe0 == int(b0[0])&0xe0 && v%7 == bi) {
@@ -509,7 +506,7 @@ func costOf(a *api) int {
 	case "blsg1", "ed25519p", "x25519p":
 		return 8
 	case "pallas", "vesta":
-		return 2
+		return 3
 	}
 	return 1
 }
@@ -776,7 +773,7 @@ func main() {
 		return
 	}
 
-	nWalk, nRandom, nFlip, nField := 24, 260, 120, 150
+	nWalk, nRandom, nFlip, nField := 24, 180, 90, 80
 	if a.Tier == "thorough" {
 		nWalk, nRandom, nFlip, nField = 120, 6000, 3000, 3000
 	}
@@ -1166,7 +1163,11 @@ func checkWrappers(res *vh.Result, a *api, b []byte, p any) {
 		u := a.fresh().(cborI)
 		pk := vh.Safely(func() { e = u.UnmarshalCBOR(data) })
 		if pk != "" || e != nil || !a.equal(u, p) {
-			report(vh.Mismatch{ID: line, Kind: "prop", Key: a.name + "-cbor-roundtrip", PropFail: true, Detail: "CBOR round trip fails " + pk, Case: line, What: "CBOR round trip"})
+			key := a.name + "-cbor-roundtrip"
+			if isOrder2(a, p) {
+				key = a.name + "-uncompressed-order2" // the CBOR form carries the uncompressed encoding
+			}
+			report(vh.Mismatch{ID: line, Kind: "prop", Key: key, PropFail: true, Detail: "CBOR round trip of the element decoded from this string fails " + pk, Case: line, What: "CBOR round trip"})
 		}
 	}
 }
